@@ -231,7 +231,7 @@ func worker(scenarios []Scenario, sh string, budget time.Duration) {
 		st.Outcomes = len(outcomes)
 		// state-cache soundness self-test on a sample of the scenarios: the same exploration
 		// without the cache must see exactly the same set of outcomes
-		if !vrt.RaceEnabled && vio == nil && res.Infra == "" && !stats.Capped && idx%41 == 0 && stats.Executions < 30000 {
+		if !vrt.RaceEnabled && vio == nil && res.Infra == "" && !stats.Capped && (idx%41 == 0 || os.Getenv("VERIF_SELFTEST_ALL") != "") && stats.Executions < 30000 {
 			withCache := outcomes
 			outcomes = map[string]bool{}
 			bad := false
